@@ -140,6 +140,12 @@ func (e *Engine) verifyFunc(fi *FuncInfo) *FuncResult {
 			st.assume(pre.evalBool(r.Expr, st))
 		}
 	}
+	if con != nil {
+		pre := c.contractEnv(fi, nil, bind, nil, nil)
+		for _, h := range con.Holds {
+			st.held[env.lockToken(pre, h, st)] = true
+		}
+	}
 	entrySnap := st.clone()
 	c.entry = entrySnap
 	// vacuity guard: the precondition must be satisfiable
@@ -281,6 +287,10 @@ func (env *Env) lockDiscipline(st *State, base Val, ssort, field string, pos tok
 	if env.noSafety || env.contract || env.oldMode {
 		return
 	}
+	if c.fi.Contract != nil && c.fi.Contract.Exclusive {
+		c.trust("exclusive: " + c.fi.Key + " runs before its receiver is shared (lock discipline waived)")
+		return
+	}
 	ts := c.e.typeSpecForSort(ssort)
 	if ts == nil {
 		return
@@ -348,6 +358,22 @@ func (env *Env) lockOp(recvExpr ast.Expr, op string, st *State, pos token.Pos) {
 			// other threads may have changed the guarded fields: havoc, then assume the invariant
 			if !c.freshRefs[base.T] {
 				for _, f := range ts.Guards[mu] {
+					if tn, fld, ok := strings.Cut(f, "."); ok {
+						// Type.* / Type.f : objects owned by the monitor
+						if o, ok := env.lookupName(tn).(*types.TypeName); ok {
+							os := env.sortOf(o.Type())
+							for _, fn := range c.structFields(os, fld) {
+								okey := os + "." + fn
+								srt := c.fieldSortByKey(env, o.Type(), fn)
+								env.heapTerm(st, okey, srt)
+								st.heap[okey] = c.fresh("H'"+okey, fmt.Sprintf("(Array Int %s)", srt))
+								if c.inlineTag == "" && c.entry != nil && !c.lockedOnce[tok] {
+									c.entry.heap[okey] = st.heap[okey]
+								}
+							}
+						}
+						continue
+					}
 					key := ssort + "." + f
 					var ft types.Type
 					for i := 0; i < sty.NumFields(); i++ {
